@@ -3060,6 +3060,7 @@ impl Fsm {
             Ok(value) => value,
             Err(_) => {
                 // Error -> abort
+                datamodel.internal_error_execution();
                 return;
             }
         };
@@ -3100,6 +3101,7 @@ impl Fsm {
         let src = match datamodel.get_expression_alternative_value(&inv.src, &inv.src_expr) {
             Err(_) => {
                 // Error -> Abort
+                datamodel.internal_error_execution();
                 return;
             }
             Ok(value) => value.lock().unwrap().clone(),
